@@ -140,6 +140,31 @@ impl C15 {
             s.violate_game("C15", "printed_form_ne_independent_rendering", rec, format!("engine:\n{}\nexpected:\n{}", printed, own));
             return;
         }
+        // every sixteenth state: malformed relatives of the printed text are parsed first (each must be rejected
+        // or accepted without unwinding; what matters here is that a failed parse leaves nothing behind)
+        if self.states % 16 == 0 {
+            let lines: Vec<&str> = printed.lines().collect();
+            let mut hostile: Vec<String> = vec![];
+            if lines.len() >= 10 {
+                // a surplus rank holding pieces below rank 1; two surplus ranks, the first empty; a surplus file
+                let mut a: Vec<String> = lines.iter().map(|l| l.to_string()).collect();
+                a.insert(10.min(a.len() - 1), " 0| E r C d     |".to_string());
+                hostile.push(a.join("\n"));
+                let mut b: Vec<String> = lines.iter().map(|l| l.to_string()).collect();
+                b.insert(10.min(b.len() - 1), " 0|                 |".to_string());
+                b.insert(11.min(b.len() - 1), "-1|   M           r |".to_string());
+                hostile.push(b.join("\n"));
+                let c: Vec<String> = lines.iter().enumerate().map(|(i, l)| if i == 2 { format!("{} R h", l.trim_end_matches('|')) + " |" } else { l.to_string() }).collect();
+                hostile.push(c.join("\n"));
+                hostile.push(printed.replacen('g', "x", 1).replacen(char::is_numeric, "99999999999999999999999", 1));
+            }
+            for h in &hostile {
+                if let Err(p) = parse_state(h) {
+                    s.violate_game("C15", "parser_panicked_on_malformed_relative", rec, format!("{} {}\n{}", p.site, p.msg, h));
+                }
+                s.count("malformed_relatives_parsed_before_round_trip");
+            }
+        }
         match parse_state(&printed) {
             Err(p) => s.violate_game("C15", "parser_panicked_on_printed_state", rec, format!("{} {}\n{}", p.site, p.msg, printed)),
             Ok(Err(e)) => s.violate_game("C15", "printed_state_rejected", rec, format!("{}\n{}", e, printed)),
